@@ -7,16 +7,18 @@ Design:   TLC runs SetupMC.tla: the checks of pysph's set-up chain
           (equation shape x symbols x sources x group structure x api x one
           removed name / misspelt array; several instances of one equation
           class on one destination; integrators over several arrays in
-          several orders).  The complete run uses the mechanism the code
+          several orders; constants among the needed names with the list of
+          arrays in every order; steppers with 3 and 4 stages; histories of
+          two builds in one process).  The complete run uses the mechanism
+          the code
           follows ("closure": explicit names and the closure of the symbol
           table, since the repair of C20-symbol-requirements-unchecked): the
           bare contract must hold on every case.  Side runs measure that the
           universe is sensitive: with the mechanism before the repair
           ("explicit": method signatures only), with no property check
-          ("none"), with equations of an already checked class and dest
-          skipped ("dedup") and with only the last stepper checked
-          ("laststepper") TLC must find, by itself, a case violating the
-          contract.
+          ("none") and with each seeded defect of SetupMC.tla ("dedup",
+          "laststepper", "constleak", "stage12", "memo") TLC must find, by
+          itself, a case violating the contract.
 Binding:  (spec -> code) TLC prints every case; checks/c20_driver.py builds
           the real ParticleArrays, generated probe Equation / IntegratorStep
           classes, Groups, MultiStageEquations and runs AccelerationEval,
@@ -49,25 +51,28 @@ from mbv import tlc                                   # noqa: E402
 from mbv.harness import Check, MachineryError, main   # noqa: E402
 
 # design universes per tier (constants of SetupMC.tla; value sets by name)
+_Q = dict(SymSets='SymsQ', Shapes='ShapesQ', SrcOpts='SrcQ', Pairs='PairsQ',
+          Wide='FALSE', Combo='FALSE',
+          DupShapes='DupShapesQ', DupSyms='DupSymsQ', DupOpts='DupOptsQ',
+          DupPairs='DupPairsQ',
+          StepStructs='StepStructsQ', StepOrders='StepOrdersQ',
+          ConstOrders='ConstOrdersQ', ConstPairs='ConstPairsQ',
+          StageOpts='StageOptsQ', StageOrders='StageOrdersQ',
+          HistSyms='HistSymsQ', HistPairs='HistPairsQ')
 UNIVERSES = {
-    'quick': [dict(SymSets='SymsQ', Shapes='ShapesQ', SrcOpts='SrcQ',
-                   Pairs='PairsQ', Wide='FALSE', Combo='FALSE',
-                   DupShapes='DupShapesQ', DupSyms='DupSymsQ',
-                   DupOpts='DupOptsQ', DupPairs='DupPairsQ',
-                   StepStructs='StepStructsQ', StepOrders='StepOrdersQ')],
-    'thorough': [dict(SymSets='SymsT', Shapes='ShapesQ', SrcOpts='SrcQ',
-                      Pairs='PairsT', Wide='TRUE', Combo='FALSE',
-                      DupShapes='DupShapesQ', DupSyms='DupSymsT',
-                      DupOpts='DupOptsT', DupPairs='DupPairsT',
-                      StepStructs='StepStructsT', StepOrders='StepOrdersT'),
-                 dict(SymSets='SymsC', Shapes='ShapesT', SrcOpts='SrcQ',
-                      Pairs='PairsC', Wide='FALSE', Combo='TRUE',
-                      DupShapes='DupShapesQ', DupSyms='DupSymsQ',
-                      DupOpts='DupOptsQ', DupPairs='DupPairsQ',
-                      StepStructs='StepStructsQ', StepOrders='StepOrdersQ')],
+    'quick': [_Q],
+    'thorough': [dict(_Q, SymSets='SymsT', Pairs='PairsT', Wide='TRUE',
+                      DupSyms='DupSymsT', DupOpts='DupOptsT',
+                      DupPairs='DupPairsT', StepStructs='StepStructsT',
+                      StepOrders='StepOrdersT', ConstPairs='ConstPairsT',
+                      StageOrders='StageOrdersT', HistSyms='HistSymsT',
+                      HistPairs='HistPairsT'),
+                 dict(_Q, SymSets='SymsC', Shapes='ShapesT', Pairs='PairsC',
+                      Combo='TRUE')],
 }
 SETS = ('SymSets', 'Shapes', 'SrcOpts', 'Pairs', 'DupShapes', 'DupSyms',
-        'DupOpts', 'DupPairs', 'StepStructs', 'StepOrders')
+        'DupOpts', 'DupPairs', 'StepStructs', 'StepOrders', 'ConstOrders',
+        'ConstPairs', 'StageOpts', 'StageOrders', 'HistSyms', 'HistPairs')
 SHIPPED_CAP = {'quick': 2, 'thorough': 0}      # names per class and role
 NEXEC = {'quick': 0, 'thorough': 3}            # complete problems compiled
 INPUT_KEYS = ('api', 'structure', 'arrays', 'eqs', 'steppers')
@@ -75,7 +80,8 @@ DRIVER = 'checks/c20_driver.py'
 FINDING = 'C20-symbol-requirements-unchecked'
 # mechanism variants of SetupMC.tla that must violate the bare contract:
 # the code before the repair of FINDING, and seeded defects
-DEFECT_VARIANTS = ('explicit', 'none', 'dedup', 'laststepper')
+DEFECT_VARIANTS = ('explicit', 'none', 'dedup', 'laststepper', 'constleak',
+                   'stage12', 'memo')
 
 
 def write_cfg(path, u, variant, known, invariants, emit):
@@ -126,7 +132,7 @@ def design(chk):
         c_full = cfg('full', variant, known,
                      ['Functional', 'ContractOrKnown' if known
                       else 'Contract'], True)
-        with ThreadPoolExecutor(max_workers=4) as ex:
+        with ThreadPoolExecutor(max_workers=7) as ex:
             fs = [(v, ex.submit(run_tlc, c, 2)) for v, c in side]
             full = run_tlc(c_full, 6)
             found = [(v, f.result()) for v, f in fs]
@@ -146,11 +152,14 @@ def design(chk):
                 info['sensitivity'][v] = st[-1]['text'][:2500] if st else ''
         got = tlc.parse_prints(full['out'], 'CASE')
         new = 0
-        for c in got:
-            key = json.dumps(c, sort_keys=True)
+        for hst in got:
+            # TLC prints histories [builds, reuse, mutate]; a history of one
+            # build is an ordinary case
+            key = json.dumps(hst, sort_keys=True)
             if key in seen:
                 continue
             seen.add(key)
+            c = hst['builds'][0] if len(hst['builds']) == 1 else hst
             c.update(id='u%d-%d' % (ui, new), type='case', leg='universe')
             new += 1
             cases.append(c)
@@ -214,7 +223,23 @@ def drive(chk, cases, tag, mode='', nproc=16):
             raise MachineryError('driver imported pysph from %s, not from '
                                  'the build environment %s' % (s['pysph'],
                                                                src))
-    traces = [t for _, ts in parts for t in ts]
+    traces = []
+    for _, ts in parts:
+        for t in ts:
+            if 'builds' not in t:
+                traces.append(t)
+                continue
+            # a history: one trace per build (the contract speaks of each
+            # build on its own); the whole history goes into a replay
+            hst = dict((k, t[k]) for k in ('builds', 'reuse', 'mutate'))
+            for k, (b, o) in enumerate(zip(t['builds'], t['outs'])):
+                r = dict(b)
+                r.update(id='%s.%d' % (t['id'], k), type='case',
+                         leg='history', known_ids=t['known_ids'], out=o,
+                         hist=dict(k=k, n=len(t['builds']),
+                                   reuse=t['reuse'], mutate=t['mutate']),
+                         history=hst)
+                traces.append(r)
     for t in traces:
         if t['out']['k'] == 'harness-error':
             raise MachineryError('driver could not build case %s:\n%s' % (
@@ -231,7 +256,8 @@ def validate(chk, sym, traces, tag, nbatch=10):
         with open(f, 'w') as fp:
             fp.write(json.dumps(sym) + '\n')
             for t in traces[i:i + per]:
-                fp.write(json.dumps(t) + '\n')
+                fp.write(json.dumps(dict((k, v) for k, v in t.items()
+                                         if k != 'history')) + '\n')
         files.append(f)
     try:
         verdicts, st = tlc.validate_batches('TraceSetup', 'TraceSetup.cfg',
@@ -297,9 +323,14 @@ def judge(chk, by_tr, symv, casev):
             'clauses %s fail (expected %s): %s [%s/%s] arrays %s -> %s' % (
                 sorted(v['failed']), v['expected'], who, tr['api'],
                 tr['structure'],
-                ['%s lacks %s' % (tr['removed'][0], tr['removed'][1])]
-                if tr.get('removed') else lacks, describe(tr)),
+                (['%s lacks %s' % (tr['removed'][0], tr['removed'][1])]
+                 if tr.get('removed') else lacks) +
+                (['build %d of %d in one process, %s objects' % (
+                    tr['hist']['k'] + 1, tr['hist']['n'],
+                    'the same' if tr['hist']['reuse'] else 'fresh')]
+                 if tr.get('hist') else []), describe(tr)),
             dict(case=inputs_of(tr), id=v['id'], execute=tr.get('execute'),
+                 hist=tr.get('hist'), history=tr.get('history'),
                  out=tr['out'], verdict=v))
     return nfail
 
@@ -321,8 +352,8 @@ def mark_execute(cases, n):
     for c in cases:
         if len(chosen) >= n:
             break
-        if c['leg'] != 'universe' or c['api'] != 'compiler' or \
-                not complete(c):
+        if c['leg'] != 'universe' or 'builds' in c or \
+                c['api'] != 'compiler' or not complete(c):
             continue
         a = next(e for e in c['eqs'] if e['name'] == 'ProbeA')
         key = (c['structure'], bool(c['steppers']))
@@ -416,8 +447,9 @@ def check(chk):
     info, head = None, None
     if chk.args.replay:
         obj = json.load(open(chk.args.replay))['case']
-        c = dict(obj['case'])
-        c.update(id=obj.get('id', 'replay'), type='case', leg='replay')
+        c = dict(obj.get('history') or obj['case'])
+        c.update(id=obj.get('id', 'replay').split('.')[0], type='case',
+                 leg='replay')
         if obj.get('execute'):
             c['execute'] = True
         cases = [c]
@@ -472,7 +504,8 @@ def check(chk):
         mech[m] = mech.get(m, 0) + 1
         expd[v['expected']] = expd.get(v['expected'], 0) + 1
         if v['expected'] == 'rejected':
-            keys.add(json.dumps(inputs_of(t), sort_keys=True))
+            keys.add(json.dumps([inputs_of(t), t.get('hist')],
+                                sort_keys=True))
 
     def sample(pred):
         t = next((t for t in traces if pred(t, by_v[t['id']])), None)
@@ -505,8 +538,11 @@ def check(chk):
             'the mechanism before the repair of %s ("explicit": argument '
             'names only), no property check ("none"), equations of an '
             'already checked class and dest skipped ("dedup"), only the '
-            'last stepper checked ("laststepper") - TLC finds a violating '
-            'case for each (design_sensitivity)' % (
+            'last stepper checked ("laststepper"), constants of arrays '
+            'listed earlier counted for later ones ("constleak"), stepper '
+            'methods after stage2 unchecked ("stage12"), an equation object '
+            'checked once not checked in a later build ("memo") - TLC finds '
+            'a violating case for each (design_sensitivity)' % (
                 info.get('variant'),
                 'explicit names plus the closure of the symbol table; the '
                 'code since the repair' if info.get('variant') == 'closure'
@@ -540,7 +576,8 @@ def check(chk):
         rule='a case is one problem definition (particle arrays with the '
              'names of their properties and constants; equations with '
              'class, dest, sources, explicit d_/s_ names, precomputed '
-             'symbols; steppers; group structure; api) put through the '
+             'symbols; steppers with their methods; group structure; api; '
+             'for a history its position in it) put through the '
              'real set-up chain up to code generation; universe cases are '
              'printed by TLC (every case of the design model), shipped-'
              'class cases are derived from the real classes; distinct by '
@@ -555,18 +592,27 @@ def check(chk):
         'compiler runs (_get_code(), get_code() of further helpers); '
         'SPHEvaluator is run with its compiler stopped at the same point; '
         'nothing generated is compiled or executed for an incomplete problem',
-        'cython backend, CubicSpline(dim=1), EulerIntegrator; precomputed '
+        'cython backend, CubicSpline(dim=1), a generated integrator whose '
+        'one_timestep calls initialize and every stageN some stepper has; '
+        'precomputed '
         'symbols count only as arguments of `loop` (as documented); for an '
         'equation without sources the symbols are not demanded (either '
         'outcome allowed)',
         'the error must name the class of an equation that has a problem '
-        'and one missing name (or the non-existent array); naming the array '
-        'a property is missing from, and the class of a stepper, is '
-        'recorded but not demanded; message words are compared as '
-        'identifiers',
+        'and one missing name (or the non-existent array); a stepper is '
+        'identified by its class or by the array it is given for; naming '
+        'the array a property is missing from is recorded but not demanded; '
+        'message words are compared as identifiers, d_x / s_x also count as '
+        'x',
+        'a history is two builds in one process (complete then incomplete '
+        'or the reverse; same equation/stepper objects with the same or new '
+        'array objects, or fresh objects); every build is judged on its own',
         'shipped classes: constructor arguments from a table of admissible '
         'values (else 1.0); arrays hold exactly the needed names plus '
-        'tag/pid/gid, all as double properties',
+        'tag/pid/gid, all as double properties; in two cases of three a '
+        'further array pa_o that nothing is applied to owns all those names '
+        'as constants (listed first / last); the names removed cover every '
+        'method of the class and the symbol-only needs',
     ]
     evp = os.path.join(os.path.dirname(os.path.dirname(
         os.path.abspath(__file__))), 'evidence', 'C20.json')
